@@ -86,7 +86,8 @@ def sx(body):
 
 
 class Render:
-    def __init__(self):
+    def __init__(self, style=0):
+        self.style = style
         self.k = 0          # condition counter
         self.tags = []
         self.uid = 0
@@ -112,9 +113,24 @@ class Render:
             elif h == "ifn":
                 out.append(pad + "if %s {" % self.cond()); out += self.stmts(st[1], ind + 1); out.append(pad + "}")
             elif h == "while" and st[1] == "F":
+                # a condition the analysis cannot decide; five ways of writing it (all of them do become false at run time)
                 self.uid += 1; w = "w%d" % self.uid
-                out.append(pad + "let %s: i32 = 0;" % w)
-                out.append(pad + "while %s < 2 {" % w); out.append(pad + "    %s = %s + 1;" % (w, w))
+                style = (self.style + self.uid) % 5
+                if style == 0:
+                    out.append(pad + "let %s: i32 = 0;" % w)
+                    out.append(pad + "while %s < 2 {" % w); out.append(pad + "    %s = %s + 1;" % (w, w))
+                elif style == 1:      # flag cleared by assignment
+                    out.append(pad + "let %s: bool = true;" % w)
+                    out.append(pad + "while %s {" % w); out.append(pad + "    %s = false;" % w)
+                elif style == 2:      # flag cleared through a mutable reference
+                    out.append(pad + "let %s := true;" % w)
+                    out.append(pad + "while %s {" % w); out.append(pad + "    stop(&'%s);" % w)
+                elif style == 3:      # bound held in a never-reassigned let
+                    out.append(pad + "let %s: i32 = 0;" % w); out.append(pad + "let lim%s: i32 = 1;" % w)
+                    out.append(pad + "while %s < lim%s {" % (w, w)); out.append(pad + "    %s += 1;" % w)
+                else:                 # conjunction with a constant-true operand
+                    out.append(pad + "let %s: i32 = 0;" % w)
+                    out.append(pad + "while true && %s < 2 {" % w); out.append(pad + "    %s++;" % w)
                 out += self.stmts(st[2], ind + 1); out.append(pad + "}")
             elif h == "while":
                 # `while true`: body starts with the guard `if g > 3 { return GUARD }` (skeleton: ifn [R])
@@ -160,28 +176,50 @@ fn sel(p: i32, k: i32) -> i32 {
     return q % 3;
 }
 type H struct { .V: i32 };
+fn stop(flag: &'bool) { flag = false; }
+fn apply(f: fn(a: i32) -> i32, x: i32) -> i32 { return f(x); }
 '''
 
 
-def render(body, host):
-    r = Render()
+def render(body, host, style=0):
+    r = Render(style)
     inner = r.stmts(body, 1)
     decls = ["    let t: i32 = 0;", "    let flo: i32 = 0;", "    let fhi: i32 = 2;"]
     npaths = min(1 << min(r.k + 1, 6), 64)
+    ind = lambda ls, k=1: ["    " * k + l for l in ls]
+    lit = lambda name: ["let %s := fn(path: i32) -> i32 {" % name] + decls[0:0] + [l for l in decls + inner] + ["};"]
+    loop = lambda call: ["let p: i32 = 0;", "while p < %d {" % npaths, "    io::Println(%s);" % call, "    p = p + 1;", "}"]
+    fn, body_main = "", []
     if host == "func":
         fn = "fn f(path: i32) -> i32 {\n" + "\n".join(decls + inner) + "\n}\n"
-        call = "f(p)"
-        pre = ""
+        body_main = loop("f(p)")
     elif host == "method":
         fn = "fn (h: H) m(path: i32) -> i32 {\n" + "\n".join(decls + inner) + "\n}\n"
-        call = "hh.m(p)"
-        pre = "    let hh: H = { .V = 1 };\n"
+        body_main = ["let hh: H = { .V = 1 };"] + loop("hh.m(p)")
+    elif host == "funcLit":
+        body_main = lit("g") + loop("g(p)")
+    elif host == "lit_in_void_lit":       # non-void literal nested in a void literal
+        body_main = ["let outer := fn() {"] + ind(lit("g") + loop("g(p)")) + ["};", "outer();"]
+    elif host == "lit_in_lit":            # nested in a non-void literal
+        body_main = ["let outer := fn(q: i32) -> i32 {"] + ind(lit("g") + ["return g(q);"]) + ["};"] + loop("outer(p)")
+    elif host == "lit_in_method":
+        fn = "fn (h: H) run(q: i32) -> i32 {\n" + "\n".join(ind(lit("g") + ["return g(q);"])) + "\n}\n"
+        body_main = ["let hh: H = { .V = 1 };"] + loop("hh.run(p)")
+    elif host == "lit_in_func":
+        fn = "fn run(q: i32) -> i32 {\n" + "\n".join(ind(lit("g") + ["return g(q);"])) + "\n}\n"
+        body_main = loop("run(p)")
+    elif host == "lit_in_branch":         # declared inside an if inside a loop of main
+        body_main = ["let z: i32 = 0;", "while z < 1 {", "    z = z + 1;", "    if z == 1 {"] + ind(lit("g") + loop("g(p)"), 2) + ["    }", "}"]
+    elif host == "lit_as_arg":
+        body_main = ["let p: i32 = 0;", "while p < %d {" % npaths, "    io::Println(apply(fn(path: i32) -> i32 {"] + ind(decls + inner, 1) + ["    }, p));", "    p = p + 1;", "}"]
     else:
-        fn = ""
-        pre = "    let g := fn(path: i32) -> i32 {\n" + "\n".join("    " + l for l in decls + inner) + "\n    };\n"
-        call = "g(p)"
-    main = "fn main() {\n" + pre + "    let p: i32 = 0;\n    while p < %d {\n        io::Println(%s);\n        p = p + 1;\n    }\n}\n" % (npaths, call)
+        raise ValueError(host)
+    main = "fn main() {\n" + "\n".join(ind(body_main)) + "\n}\n"
     return PRELUDE + fn + main, r.tags, npaths
+
+
+HOSTS = ["func", "method", "funcLit", "lit_in_void_lit", "lit_in_lit", "lit_in_method", "lit_in_func", "lit_in_branch", "lit_as_arg"]
+MODEL_KIND = {"func": "func", "method": "method"}       # every other host is a function literal for the model
 
 
 CORPUS = [
@@ -226,19 +264,19 @@ def main():
         if s not in seen:
             seen.add(s); bodies.append(b)
     mlines = run_driver(["cfg"], "".join(sx(b) + "\n" for b in bodies)).split("\n")
-    hosts = ["func", "method", "funcLit"]
+    hosts = HOSTS
     jobs, meta = [], []
     for i, b in enumerate(bodies):
         mf = mlines[i].split()
         if len(mf) != 6 or mf[2] != "true":
             continue
-        analysed_by_host = {"func": mf[3] == "true", "method": mf[4] == "true", "funcLit": mf[5] == "true"}
+        analysed_by_kind = {"func": mf[3] == "true", "method": mf[4] == "true", "funcLit": mf[5] == "true"}
         impl_ok, falls = mf[0] == "true", mf[1] == "true"
-        host = hosts[i % 3] if i >= len(CORPUS) else "func"
+        host = hosts[i % len(hosts)] if i >= len(CORPUS) else "func"
         for h in ([host] if i >= len(CORPUS) else hosts):
-            text, tags, npaths = render(b, h)
+            text, tags, npaths = render(b, h, style=i)
             jobs.append({"files": {"main.fer": text}, "mode": "run", "timeout": 30})
-            meta.append((i, h, impl_ok, falls, tags, npaths, analysed_by_host[h]))
+            meta.append((i, h, impl_ok, falls, tags, npaths, analysed_by_kind[MODEL_KIND.get(h, "funcLit")]))
     res = run_many(jobs)
     st = {"bodies": len(bodies), "programs": len(jobs), "accepted": 0, "rejected_missing_return": 0, "other_errors": 0, "executed_paths": 0,
           "model_vs_compiler_diffs": 0, "spec_falls": 0}
@@ -315,7 +353,7 @@ def main():
                          "ferret diagnostics text 'not all code paths'"],
         "theorems": [{"name": nm, "axioms": axioms.get(nm)} for nm in names],
         "evaluations": len(jobs), "distinct_nontrivial": len([b for b in bodies if len(sx(b)) > 30]),
-        "rule": "fixed corpus x {function, method, function literal} + seeded random skeletons (nesting depth <= 3, <= 10 nodes) over if/else-if/else, match with and "
+        "rule": "fixed corpus x 9 hosts (function, method, function literal; literal nested in a void literal, in a non-void literal, in a method, in a function, in a branch inside a loop, passed as an argument) + seeded random skeletons rendered with 5 spellings of undecidable loop conditions (counter, flag cleared by assignment, flag cleared through &', bound in a let, `true && c`) (nesting depth <= 3, <= 10 nodes) over if/else-if/else, match with and "
                 "without default, while (opaque / literal true with break), for, break/continue, early returns; non-trivial = distinct skeletons with more than ~4 nodes",
         "samples": [sx(b) for b in bodies[len(CORPUS):len(CORPUS) + 5]],
         "model_vs_code_diffs": diffs[:10], "stats": st,
